@@ -1603,8 +1603,9 @@ class Engine:
         if isinstance(op, ast.FloorDiv):
             self.div_guard(txt, zb != 0)
             if real and za.sort() == INT and isinstance(b, float) and b == int(b) and b != 0:
-                # int // integral float constant: floor of the exact quotient == integer floor division
-                return z3.ToReal(floordiv(za, z3.IntVal(int(b))))
+                # int // integral float constant: floor of the exact quotient == integer floor division; the float result is
+                # kept as the exact rational q/1 so that what follows stays integer arithmetic
+                return Ratio(floordiv(za, z3.IntVal(int(b))), 1)
             if real:
                 return z3.ToReal(z3.ToInt(zreal(za) / zreal(zb)))
             return floordiv(za, zb)
